@@ -134,27 +134,27 @@ pub trait Runner {
     fn finish(&mut self) -> Vec<String>;
 }
 
-type M<K, V> = HashMap<K, V, IdBuild, TapeAlloc>;
+pub type M<K, V> = HashMap<K, V, IdBuild, TapeAlloc>;
 
 /// Reference association list: key ↦ (kid, vid, v).
-type RefMap = std::collections::BTreeMap<u64, (u64, u64, u64)>;
+pub type RefMap = std::collections::BTreeMap<u64, (u64, u64, u64)>;
 
 pub struct MapRunner<K: KeyT, V: ValT> {
-    a: Option<M<K, V>>,
-    b: Option<M<K, V>>,
-    ra: RefMap,
-    rb: RefMap,
+    pub a: Option<M<K, V>>,
+    pub b: Option<M<K, V>>,
+    pub ra: RefMap,
+    pub rb: RefMap,
     /// predicate decisions of the last retain/extract_if: (key, answer, new v)
-    preds: std::rc::Rc<std::cell::RefCell<Vec<(u64, bool, u64)>>>,
+    pub preds: std::rc::Rc<std::cell::RefCell<Vec<(u64, bool, u64)>>>,
     /// ownership ledger: ids of key/value objects that are owned by one of the collections
-    live: std::collections::BTreeSet<String>,
+    pub live: std::collections::BTreeSet<String>,
     /// objects that have been dropped or handed back
-    dead: std::collections::BTreeSet<String>,
+    pub dead: std::collections::BTreeSet<String>,
     /// a leak is legitimate from here on (a drain was forgotten / a destructor panicked)
-    leak_ok: bool,
+    pub leak_ok: bool,
 }
 
-fn contents<K: KeyT, V: ValT>(m: &M<K, V>) -> RefMap {
+pub fn contents<K: KeyT, V: ValT>(m: &M<K, V>) -> RefMap {
     let d = m.verif_dump();
     let mut out = RefMap::new();
     if !d.is_singleton {
@@ -167,7 +167,7 @@ fn contents<K: KeyT, V: ValT>(m: &M<K, V>) -> RefMap {
     out
 }
 
-fn lawful() -> bool {
+pub fn lawful() -> bool {
     tape::with(|t| {
         let p = &t.p;
         p.hash_mix.is_none()
@@ -180,18 +180,18 @@ fn lawful() -> bool {
     })
 }
 
-fn new_map<K: KeyT, V: ValT>() -> M<K, V> {
+pub fn new_map<K: KeyT, V: ValT>() -> M<K, V> {
     HashMap::with_hasher_in(IdBuild, TapeAlloc)
 }
 
-fn fmt_kv<K: KeyT, V: ValT>(k: &K, v: &V) -> String {
+pub fn fmt_kv<K: KeyT, V: ValT>(k: &K, v: &V) -> String {
     if K::IDS {
         format!("{}.{}.{}.{}", k.k(), k.id(), v.id(), v.v())
     } else {
         format!("{}.0.0.{}", k.k(), v.v())
     }
 }
-fn fmt_v<K: KeyT, V: ValT>(v: &V) -> String {
+pub fn fmt_v<K: KeyT, V: ValT>(v: &V) -> String {
     if K::IDS {
         format!("{}.{}", v.id(), v.v())
     } else {
@@ -199,7 +199,7 @@ fn fmt_v<K: KeyT, V: ValT>(v: &V) -> String {
     }
 }
 
-fn state_of<K: KeyT, V: ValT>(m: &M<K, V>) -> String {
+pub fn state_of<K: KeyT, V: ValT>(m: &M<K, V>) -> String {
     let d = m.verif_dump();
     let mut slots = Vec::new();
     if !d.is_singleton {
@@ -219,7 +219,7 @@ fn state_of<K: KeyT, V: ValT>(m: &M<K, V>) -> String {
 }
 
 /// address of the key object in bucket `i` ↦ `i`
-fn addr_index<K: KeyT, V: ValT>(m: &M<K, V>) -> (StdMap<usize, usize>, StdMap<usize, usize>) {
+pub fn addr_index<K: KeyT, V: ValT>(m: &M<K, V>) -> (StdMap<usize, usize>, StdMap<usize, usize>) {
     let d = m.verif_dump();
     let mut ka = StdMap::new();
     let mut va = StdMap::new();
@@ -234,12 +234,12 @@ fn addr_index<K: KeyT, V: ValT>(m: &M<K, V>) -> (StdMap<usize, usize>, StdMap<us
     (ka, va)
 }
 
-fn nats(v: &[usize]) -> String {
+pub fn nats(v: &[usize]) -> String {
     v.iter().map(|x| x.to_string()).collect::<Vec<_>>().join(",")
 }
 
 /// Drive an `ExactSizeIterator + Clone` the way `Map.iterObserve` does; `idx` maps an item to its bucket.
-fn observe_iter<I, T>(it: I, p: usize, idx: impl Fn(&T) -> usize) -> String
+pub fn observe_iter<I, T>(it: I, p: usize, idx: impl Fn(&T) -> usize) -> String
 where
     I: Iterator<Item = T> + ExactSizeIterator + Clone,
 {
@@ -286,7 +286,7 @@ where
 
 /// Same for iterators that cannot be cloned (`iter_mut`, `values_mut`): the "clone" column
 /// repeats the folded one.
-fn observe_iter_nc<I, T>(it: I, p: usize, idx: impl Fn(&T) -> usize) -> String
+pub fn observe_iter_nc<I, T>(it: I, p: usize, idx: impl Fn(&T) -> usize) -> String
 where
     I: Iterator<Item = T> + ExactSizeIterator,
 {
@@ -498,7 +498,10 @@ impl<K: KeyT, V: ValT> MapRunner<K, V> {
                 let b: Vec<_> = o.iter().map(|(k, e)| (*k, e.2)).collect();
                 expect = Some((a == b).to_string());
             }
-            _ => {}
+            _ => match crate::entry_ops::ref_entry(r, o, name, a, ret, &actual) {
+                Ok(e) => expect = e,
+                Err(why) => return Some(why),
+            },
         }
         if resync_ids {
             *r = actual.clone();
@@ -528,6 +531,9 @@ impl<K: KeyT, V: ValT> MapRunner<K, V> {
         if name == "insert" && a.len() == 4 {
             self.live.insert(format!("k{}", a[1]));
             self.live.insert(format!("v{}", a[2]));
+        }
+        for id in crate::entry_ops::moved_in(name, a) {
+            self.live.insert(id);
         }
         if name == "drain" && a.len() == 2 && a[1] == "1" {
             self.leak_ok = true;
@@ -727,7 +733,7 @@ impl<K: KeyT, V: ValT> MapRunner<K, V> {
             }
             ("eq", 0) => (*m == *other).to_string(),
             ("nop", 0) => "()".into(),
-            _ => format!("bad-op {}", name),
+            _ => crate::entry_ops::run_entry(m, other, name, a),
         }
     }
 }
@@ -819,6 +825,8 @@ pub fn make_runner(coll: &str, drop: bool, lay: &str) -> Box<dyn Runner> {
         ("map", false, "a64") => Box::new(MapRunner::<KC<A64>, VC>::new()),
         ("map", true, "big") => Box::new(MapRunner::<KD<Big>, VD>::new()),
         ("map", false, "big") => Box::new(MapRunner::<KC<Big>, VC>::new()),
+        ("table", d, l) => crate::table_runner::make(d, l),
+        ("set", d, l) => crate::set_runner::make(d, l),
         _ => panic!("no runner for coll={} drop={} lay={}", coll, drop, lay),
     }
 }
